@@ -3,6 +3,9 @@
      internal/streams/dns/dns_client_connection.go  Read, Write, Close, SendAndReceive, the poll goroutine started by Handshake
      internal/streams/dns/dns_server_connection.go  userConnection.Read/Write/Close, closeConnection, validateAndGetUser, packet,
                                                      setOptionsRequest (Closed), the expiry sweep
+   internal/streams/dns/util/queue.go          OutQueue: Close, checkQueueFull, waitEmptyQueue, closedWithData, Write (one chunk), UpdateAcked
+   One in-queue and one out-queue per end; a Write that finds unacknowledged chunks in the queue PARKS in waitEmptyQueue (before queueing its
+   own chunk, or after it, waiting for the acknowledgement) and is run on by the acknowledgement that empties the queue or by the Close.
    One in-queue per end; a Read that finds no data and no close PARKS (its notifier is in queueNotifiers) and is run to its end by the
    Append or the Close that wakes it. One reader per end (the net.Conn convention): a Read issued while one is parked is not modelled
    (outcome RBusy, nothing happens). Sequence numbers, acknowledgements and retransmission are Queue/Queues.v (C07); here a packet that
@@ -23,12 +26,16 @@ Record shape := {
   sh_sweep_closes_q : bool;   (* the expiry sweep calls u.in.Close() on the user it retires                    *)
   sh_err_identity : bool;     (* the poll loop compares with ==, and the error value of an error response (BADCONN, BADUSER: QueryWithData's
                                  `return resp, e.Err`) or of a time-out comes through SendAndReceive's `return err` as it is *)
-  sh_err_identity_packet : bool   (* the error value carried by a packet response (BADIP) comes through `return packet.Err` as it is *)
+  sh_err_identity_packet : bool;  (* the error value carried by a packet response (BADIP) comes through `return packet.Err` as it is *)
+  sh_cc_closes_out : bool;    (* ClientDnsConnection.Close calls dc.out.Close() before Communicator.Close() *)
+  sh_sc_closes_out : bool;    (* closeConnection calls u.out.Close()                                        *)
+  sh_sweep_closes_out : bool  (* the expiry sweep calls u.out.Close() on the user it retires                *)
 }.
 
 Definition intended : shape :=
   {| sh_c_eof_drained := true; sh_s_eof_drained := true; sh_cc_closes_q := true; sh_sc_closes_q := true;
-     sh_sweep_closes_q := true; sh_err_identity := true; sh_err_identity_packet := true |}.
+     sh_sweep_closes_q := true; sh_err_identity := true; sh_err_identity_packet := true;
+     sh_cc_closes_out := true; sh_sc_closes_out := true; sh_sweep_closes_out := true |}.
 
 Definition code_shape : shape :=
   {| sh_c_eof_drained := String.eqb Gen.CloseShape.client_read_eof_cond "dc.Closed() && !dc.in.HasData()";
@@ -38,7 +45,11 @@ Definition code_shape : shape :=
      sh_sweep_closes_q := Gen.CloseShape.sweep_closes_in_queue;
      sh_err_identity := Gen.CloseShape.poll_compares_badconn_by_identity && Gen.CloseShape.sar_returns_query_errors_unwrapped
                         && Gen.CloseShape.query_returns_error_response_unwrapped;
-     sh_err_identity_packet := Gen.CloseShape.poll_compares_badconn_by_identity && Gen.CloseShape.sar_returns_packet_error_unwrapped |}.
+     sh_err_identity_packet := Gen.CloseShape.poll_compares_badconn_by_identity && Gen.CloseShape.sar_returns_packet_error_unwrapped;
+     (* a Close of the out-queue counts only if the queue's Close and waitEmptyQueue are the ones modelled below *)
+     sh_cc_closes_out := Gen.CloseShape.client_close_closes_out_queue && Gen.CloseShape.out_queue_close_as_modelled;
+     sh_sc_closes_out := Gen.CloseShape.close_connection_closes_out_queue && Gen.CloseShape.out_queue_close_as_modelled;
+     sh_sweep_closes_out := Gen.CloseShape.sweep_closes_out_queue && Gen.CloseShape.out_queue_close_as_modelled |}.
 
 (* `errCount > 5` in the poll loop *)
 Definition give_up : nat := N.to_nat Gen.CloseShape.poll_give_up_above.
@@ -111,6 +122,117 @@ Fixpoint q_reads (q : cq) (n k : nat) : cq * list rout :=
   | S k' => let (q1, r) := q_read q n in let (q2, rs) := q_reads q1 n k' in (q2, r :: rs)
   end.
 
+(* ---- one out-queue (as far as waiting goes: sequence numbers and retransmission are Queue/Queues.v) *)
+Definition nonempty_l {A} (l : list A) : bool := match l with [] => false | _ => true end.
+
+(* where a Write is parked in waitEmptyQueue *)
+Inductive wstage :=
+| WEntry (d : bytes) (sent : option bool)   (* at the start of Write: chunks queued earlier are not acknowledged yet *)
+| WFinal (n : nat).                         (* at the end of Write: its own chunk (n octets) is queued and not acknowledged yet *)
+
+(* `sent`: what OnChunkAdded does once the chunk is queued. None: no callback (server end; the chunk waits for a poll).
+   Some true: the callback sent the chunk and got it acknowledged (client end, SendAndReceive succeeded);
+   Some false: the callback failed, the chunk stays queued and Write returns that error (client end). *)
+
+Inductive wout :=
+| WDone (n : nat)      (* (n, nil) *)
+| WClosed (n : nat)    (* (n, os.ErrClosed) *)
+| WErr (n : nat)       (* (n, the error of OnChunkAdded) *)
+| WBlock (queued : bool)   (* the call parks in waitEmptyQueue; queued: its own chunk is in the queue already *)
+| WBusy.               (* not issued: a writer is parked on this end already *)
+
+Record oq := {
+  o_q : list bytes;           (* q.out: chunks queued and not acknowledged *)
+  o_has : bool;               (* q.queueHasData *)
+  o_closed : bool;            (* q.closed *)
+  o_parked : option wstage;   (* the writer waiting in waitEmptyQueue *)
+  o_sent : list bytes;        (* ghost: every chunk ever queued *)
+  o_ackd : list bytes         (* ghost: every chunk acknowledged *)
+}.
+
+Definition o_new : oq := {| o_q := []; o_has := false; o_closed := false; o_parked := None; o_sent := []; o_ackd := [] |}.
+
+Definition o_set_parked (o : oq) (p : option wstage) : oq :=
+  {| o_q := o_q o; o_has := o_has o; o_closed := o_closed o; o_parked := p; o_sent := o_sent o; o_ackd := o_ackd o |}.
+
+(* addChunk, then the queueHasData flag brought up to date (checkQueueFull, by Write itself or by NextChunk inside the callback) *)
+Definition o_enqueue (o : oq) (d : bytes) : oq :=
+  {| o_q := o_q o ++ [d]; o_has := true; o_closed := o_closed o; o_parked := o_parked o; o_sent := o_sent o ++ [d]; o_ackd := o_ackd o |}.
+
+(* UpdateAcked of the first chunk's number: the chunk leaves the queue; checkQueueFull *)
+Definition o_dequeue (o : oq) : oq :=
+  match o_q o with
+  | [] => o
+  | h :: r => {| o_q := r; o_has := nonempty_l r; o_closed := o_closed o; o_parked := o_parked o; o_sent := o_sent o; o_ackd := o_ackd o ++ [h] |}
+  end.
+
+(* waitEmptyQueue up to the point where it returns or parks *)
+Inductive wwait := WtOk | WtClosed | WtPark.
+Definition o_wait (o : oq) : wwait :=
+  if negb (o_has o) then WtOk else if o_closed o then WtClosed else WtPark.
+
+(* checkQueueFull, minus the notification *)
+Definition o_check (o : oq) : oq :=
+  {| o_q := o_q o; o_has := nonempty_l (o_q o); o_closed := o_closed o; o_parked := o_parked o; o_sent := o_sent o; o_ackd := o_ackd o |}.
+
+(* the last statement of Write: return n, q.waitEmptyQueue() *)
+Definition o_final (o : oq) (n : nat) : oq * wout :=
+  match o_wait o with
+  | WtOk => (o, WDone n)
+  | WtClosed => (o, WClosed n)
+  | WtPark => (o_set_parked o (Some (WFinal n)), WBlock true)
+  end.
+
+(* Write from the point where the first waitEmptyQueue has returned nil: the chunk loop (one chunk), checkQueueFull, the last wait *)
+Definition o_fill (o : oq) (d : bytes) (sent : option bool) : oq * wout :=
+  match d with
+  | [] => o_final (o_check o) 0
+  | _ =>
+    let n := List.length d in
+    let o1 := o_enqueue o d in
+    match sent with
+    | Some false => (o1, WErr n)                  (* the callback's error is returned before checkQueueFull and the last wait *)
+    | Some true => o_final (o_dequeue o1) n       (* acknowledged inside the callback *)
+    | None => o_final o1 n
+    end
+  end.
+
+(* OutQueue.Write(d, mtu) with len(d) <= mtu *)
+Definition o_write (o : oq) (d : bytes) (sent : option bool) : oq * wout :=
+  match o_parked o with
+  | Some _ => (o, WBusy)
+  | None =>
+    match o_wait o with
+    | WtOk => o_fill o d sent
+    | WtClosed => (o, WClosed 0)
+    | WtPark => (o_set_parked o (Some (WEntry d sent)), WBlock false)
+    end
+  end.
+
+(* every notifier is called: the parked writer runs on (closedWithData, then the rest of Write) *)
+Definition o_wake (o : oq) : oq * option wout :=
+  match o_parked o with
+  | None => (o, None)
+  | Some st =>
+    let o0 := o_set_parked o None in
+    if o_closed o0 && o_has o0 then
+      (o0, Some (WClosed (match st with WFinal n => n | WEntry _ _ => 0 end)))
+    else
+      match st with
+      | WFinal n => (o0, Some (WDone n))
+      | WEntry d sent => let (o1, r) := o_fill o0 d sent in (o1, Some r)
+      end
+  end.
+
+(* an acknowledgement for the first queued chunk arrives (UpdateAcked -> cleanAckedChunks -> checkQueueFull) *)
+Definition o_ack (o : oq) : oq * option wout :=
+  let o1 := o_dequeue o in
+  if o_has o1 then (o1, None) else o_wake o1.
+
+(* OutQueue.Close *)
+Definition o_close (o : oq) : oq * option wout :=
+  o_wake {| o_q := o_q o; o_has := o_has o; o_closed := true; o_parked := o_parked o; o_sent := o_sent o; o_ackd := o_ackd o |}.
+
 (* ---- the two ends *)
 Inductive slot := Live | Retired | Forgotten.   (* connections[id] = u | oldConnections[id] = u | neither *)
 
@@ -137,34 +259,42 @@ Inductive fate :=
 Record conn := {
   c_in : cq; c_comm : bool (* Communicator.Closed() *); c_hs : bool (* handshake done: QueryType != nil, poller running *);
   c_cnt : nat (* errCount *); c_last : option ev (* lastErr *); c_fresh : N; c_fates : list fate;
-  s_in : cq; s_closed : bool (* u.closed *); s_slot : slot
+  s_in : cq; s_closed : bool (* u.closed *); s_slot : slot;
+  c_out : oq; s_out : oq
 }.
 
 Definition init_conn (hs : bool) (fs : list fate) : conn :=
   {| c_in := q_new; c_comm := false; c_hs := hs; c_cnt := 0; c_last := None; c_fresh := 0%N; c_fates := fs;
-     s_in := q_new; s_closed := false; s_slot := Live |}.
+     s_in := q_new; s_closed := false; s_slot := Live; c_out := o_new; s_out := o_new |}.
 
 Definition set_cin (c : conn) (q : cq) : conn :=
   {| c_in := q; c_comm := c_comm c; c_hs := c_hs c; c_cnt := c_cnt c; c_last := c_last c; c_fresh := c_fresh c; c_fates := c_fates c;
-     s_in := s_in c; s_closed := s_closed c; s_slot := s_slot c |}.
+     s_in := s_in c; s_closed := s_closed c; s_slot := s_slot c; c_out := c_out c; s_out := s_out c |}.
 Definition set_sin (c : conn) (q : cq) : conn :=
   {| c_in := c_in c; c_comm := c_comm c; c_hs := c_hs c; c_cnt := c_cnt c; c_last := c_last c; c_fresh := c_fresh c; c_fates := c_fates c;
-     s_in := q; s_closed := s_closed c; s_slot := s_slot c |}.
+     s_in := q; s_closed := s_closed c; s_slot := s_slot c; c_out := c_out c; s_out := s_out c |}.
 Definition set_comm (c : conn) (b : bool) : conn :=
   {| c_in := c_in c; c_comm := b; c_hs := c_hs c; c_cnt := c_cnt c; c_last := c_last c; c_fresh := c_fresh c; c_fates := c_fates c;
-     s_in := s_in c; s_closed := s_closed c; s_slot := s_slot c |}.
+     s_in := s_in c; s_closed := s_closed c; s_slot := s_slot c; c_out := c_out c; s_out := s_out c |}.
 Definition set_poll (c : conn) (n : nat) (l : option ev) : conn :=
   {| c_in := c_in c; c_comm := c_comm c; c_hs := c_hs c; c_cnt := n; c_last := l; c_fresh := c_fresh c; c_fates := c_fates c;
-     s_in := s_in c; s_closed := s_closed c; s_slot := s_slot c |}.
+     s_in := s_in c; s_closed := s_closed c; s_slot := s_slot c; c_out := c_out c; s_out := s_out c |}.
 Definition set_fresh (c : conn) (k : N) : conn :=
   {| c_in := c_in c; c_comm := c_comm c; c_hs := c_hs c; c_cnt := c_cnt c; c_last := c_last c; c_fresh := k; c_fates := c_fates c;
-     s_in := s_in c; s_closed := s_closed c; s_slot := s_slot c |}.
+     s_in := s_in c; s_closed := s_closed c; s_slot := s_slot c; c_out := c_out c; s_out := s_out c |}.
 Definition set_fates (c : conn) (fs : list fate) : conn :=
   {| c_in := c_in c; c_comm := c_comm c; c_hs := c_hs c; c_cnt := c_cnt c; c_last := c_last c; c_fresh := c_fresh c; c_fates := fs;
-     s_in := s_in c; s_closed := s_closed c; s_slot := s_slot c |}.
+     s_in := s_in c; s_closed := s_closed c; s_slot := s_slot c; c_out := c_out c; s_out := s_out c |}.
 Definition set_srv (c : conn) (cl : bool) (sl : slot) : conn :=
   {| c_in := c_in c; c_comm := c_comm c; c_hs := c_hs c; c_cnt := c_cnt c; c_last := c_last c; c_fresh := c_fresh c; c_fates := c_fates c;
-     s_in := s_in c; s_closed := cl; s_slot := sl |}.
+     s_in := s_in c; s_closed := cl; s_slot := sl; c_out := c_out c; s_out := s_out c |}.
+
+Definition set_cout (c : conn) (o : oq) : conn :=
+  {| c_in := c_in c; c_comm := c_comm c; c_hs := c_hs c; c_cnt := c_cnt c; c_last := c_last c; c_fresh := c_fresh c; c_fates := c_fates c;
+     s_in := s_in c; s_closed := s_closed c; s_slot := s_slot c; c_out := o; s_out := s_out c |}.
+Definition set_sout (c : conn) (o : oq) : conn :=
+  {| c_in := c_in c; c_comm := c_comm c; c_hs := c_hs c; c_cnt := c_cnt c; c_last := c_last c; c_fresh := c_fresh c; c_fates := c_fates c;
+     s_in := s_in c; s_closed := s_closed c; s_slot := s_slot c; c_out := c_out c; s_out := o |}.
 
 (* what happens, in order *)
 Inductive obs :=
@@ -172,10 +302,15 @@ Inductive obs :=
 | OWoke (client : bool) (r : rout)     (* outcome of the Read that was parked *)
 | OAns (e : option ev)                 (* the server's answer to a request made directly (None: no error) *)
 | OWrite (refused : bool)
+| OWOut (client : bool) (w : wout)     (* outcome of a Write issued by the application *)
+| OWWoke (client : bool) (w : wout)    (* outcome of the Write that was parked *)
 | ODone.                               (* an operation without an outcome of its own *)
 
 Definition woke (client : bool) (w : option rout) : list obs :=
   match w with Some r => [OWoke client r] | None => [] end.
+
+Definition wwoke (client : bool) (w : option wout) : list obs :=
+  match w with Some r => [OWWoke client r] | None => [] end.
 
 (* -- server side *)
 (* validateAndGetUser for this session's id *)
@@ -192,7 +327,9 @@ Definition srv_close_connection (sh : shape) (c : conn) : conn * list obs :=
   match s_slot c with
   | Live =>
     let c1 := set_srv c true Retired in
-    if sh_sc_closes_q sh then let (q, w) := q_close (s_in c1) in (set_sin c1 q, woke false w) else (c1, [])
+    let (c2, o2) := if sh_sc_closes_q sh then let (q, w) := q_close (s_in c1) in (set_sin c1 q, woke false w) else (c1, []) in
+    let (c3, o3) := if sh_sc_closes_out sh then let (o, w) := o_close (s_out c2) in (set_sout c2 o, wwoke false w) else (c2, []) in
+    (c3, o2 ++ o3)
   | _ => (c, [])      (* BadConn / BadUser: already closed, nothing is touched *)
   end.
 
@@ -201,7 +338,9 @@ Definition srv_expire (sh : shape) (c : conn) : conn * list obs :=
   match s_slot c with
   | Live =>
     let c1 := set_srv c (s_closed c) Retired in
-    if sh_sweep_closes_q sh then let (q, w) := q_close (s_in c1) in (set_sin c1 q, woke false w) else (c1, [])
+    let (c2, o2) := if sh_sweep_closes_q sh then let (q, w) := q_close (s_in c1) in (set_sin c1 q, woke false w) else (c1, []) in
+    let (c3, o3) := if sh_sweep_closes_out sh then let (o, w) := o_close (s_out c2) in (set_sout c2 o, wwoke false w) else (c2, []) in
+    (c3, o2 ++ o3)
   | _ => (c, [])
   end.
 
@@ -225,6 +364,20 @@ Definition srv_packet (c : conn) (own : bool) (up : option bytes) : conn * optio
     | Some d => let (q, w) := q_append (s_in c) d in (set_sin c q, None, woke false w)
     | None => (c, None, [])
     end
+  end.
+
+(* a packet request without data whose LastAckedSeqNo is the number of the first chunk in the session's out-queue *)
+Definition srv_ack (c : conn) (own : bool) : conn * option ev * list obs :=
+  match validate (s_slot c) own with
+  | Some e => (c, Some e, [])
+  | None => let (o, w) := o_ack (s_out c) in (set_sout c o, None, wwoke false w)
+  end.
+
+(* userConnection.Write (one chunk) *)
+Definition s_write (c : conn) (d : bytes) : conn * wout :=
+  match o_parked (s_out c) with
+  | Some _ => (c, WBusy)
+  | None => if s_closed c then (c, WClosed 0) else let (o, r) := o_write (s_out c) d None in (set_sout c o, r)
   end.
 
 (* a set-options request with Closed reaches onMessage / setOptionsRequest *)
@@ -293,7 +446,8 @@ Definition cli_close_net (sh : shape) (c : conn) : conn * list obs :=
 Definition cli_close (sh : shape) (c : conn) : conn * list obs :=
   let (c1, o1) := cli_close_net sh c in
   let (c2, o2) := if sh_cc_closes_q sh then let (q, w) := q_close (c_in c1) in (set_cin c1 q, woke true w) else (c1, []) in
-  (set_comm c2 true, o1 ++ o2).
+  let (c3, o3) := if sh_cc_closes_out sh then let (o, w) := o_close (c_out c2) in (set_cout c2 o, wwoke true w) else (c2, []) in
+  (set_comm c3 true, o1 ++ o2 ++ o3).
 
 (* what the poll goroutine does with the result of SendAndReceive: new errCount, new lastErr, whether it closes this end *)
 Definition poll_react (cnt : nat) (last : option ev) (r : xres) : nat * option ev * bool :=
@@ -361,7 +515,13 @@ Inductive op :=
 | OSClose                  (* the application closes the server-side connection *)
 | OCloseReq                (* a set-options request with Closed reaches the server from the session's address *)
 | OExpire | OForget        (* the sweep retires / forgets the session *)
-| OCWrite | OSWrite        (* is a Write refused? *)
+| OCWrite                  (* is a Write on the client connection refused? *)
+| OSWrite (d : bytes)      (* the application writes one chunk on the server-side connection *)
+| OSQueue (d : bytes)      (* a chunk is in the server-side out-queue without a writer (what a Write that ended on its deadline leaves) *)
+| OSAck                    (* a packet request acknowledging the first queued chunk reaches the server from the session's address *)
+| OCOutWrite (d : bytes) (sent : bool)   (* OutQueue.Write on the client's out-queue, as dc.Write does after its checks; sent: did the
+                                            synchronous exchange inside the callback get the chunk acknowledged *)
+| OCAck                    (* the first chunk of the client's out-queue is acknowledged (what SendAndReceive does with an answer) *)
 | OPoll (up : option bytes).   (* the poll goroutine's timer fires *)
 
 Definition step (sh : shape) (c : conn) (o : op) : conn * list obs :=
@@ -376,7 +536,11 @@ Definition step (sh : shape) (c : conn) (o : op) : conn * list obs :=
   | OExpire => let (c1, os) := srv_expire sh c in (c1, ODone :: os)
   | OForget => (srv_forget c, [ODone])
   | OCWrite => (c, [OWrite (c_comm c)])
-  | OSWrite => (c, [OWrite (s_closed c)])
+  | OSWrite d => let (c1, r) := s_write c d in (c1, [OWOut false r])
+  | OSQueue d => (set_sout c (o_enqueue (s_out c) d), [ODone])
+  | OSAck => let '(c1, e, os) := srv_ack c true in (c1, OAns e :: os)
+  | OCOutWrite d sent => let (o, r) := o_write (c_out c) d (Some sent) in (set_cout c o, [OWOut true r])
+  | OCAck => let (o, w) := o_ack (c_out c) in (set_cout c o, ODone :: wwoke true w)
   | OPoll up => cli_poll sh c up
   end.
 
@@ -416,10 +580,14 @@ Fixpoint chunks (fuel n : nat) (l : bytes) : list bytes :=
   end.
 
 (* ---- harness protocol.
-   c17q <op>...     ca #d | sa #d | cr n | sr n | cc | sc | sq | sx | sf | cw | sw       (client without handshake: Close has no network part)
-     -> per op:  a | ok | badconn | baduser | badip | b #octets | eof | block | busy | cc | sc | sx | sf | refused | open,
-        each followed by `woke b #octets` / `woke eof` when the operation released the parked reader;
+   c17q <op>...     ca #d | sa #d | cr n | sr n | cc | sc | sq | sx | sf | cw | sw #d | sz #d | sk | cv #d <sent01> | ck
+                    (client without handshake: Close has no network part)
+     -> per op:  a | ok | badconn | baduser | badip | b #octets | eof | block | busy | cc | sc | sx | sf | sz | ck | refused | open |
+                 w <n> ok | w <n> closed | w <n> err | wblock <own chunk queued 01>,
+        each followed by `woke b #octets` / `woke eof` when the operation released the parked reader and by `wwoke <write outcome>` when
+        it released the parked writer;
         then: end <client closed> <server-side closed flag> live|retired|forgotten <client reader parked> <server reader parked>
+                  <client writer parked> <server writer parked>
    c17p <cn> <sn> <nf> <fates> <rn>      fates: ok #d | to | net | ip | evclose | evexpire | evforget
         (client after a handshake, its poll goroutine running over the scripted path; a reader parked with buffer size cn / sn on the
          client / server end first when cn / sn >= 0; then the script is armed; at the end both ends are read with buffer size rn)
@@ -437,13 +605,21 @@ Definition slot_word (s : slot) : tok := match s with Live => W "live" | Retired
 
 Definition is_some {A} (o : option A) : bool := match o with Some _ => true | None => false end.
 
+Definition wout_toks (r : wout) : list tok :=
+  match r with
+  | WDone n => [W "w"; Tnat n; W "ok"] | WClosed n => [W "w"; Tnat n; W "closed"] | WErr n => [W "w"; Tnat n; W "err"]
+  | WBlock q => [W "wblock"; Tbool q] | WBusy => [W "busy"]
+  end.
+
 Definition end_toks (c : conn) : list tok :=
-  [W "end"; Tbool (c_comm c); Tbool (s_closed c); slot_word (s_slot c); Tbool (is_some (q_parked (c_in c))); Tbool (is_some (q_parked (s_in c)))].
+  [W "end"; Tbool (c_comm c); Tbool (s_closed c); slot_word (s_slot c); Tbool (is_some (q_parked (c_in c))); Tbool (is_some (q_parked (s_in c)));
+   Tbool (is_some (o_parked (c_out c))); Tbool (is_some (o_parked (s_out c)))].
 
 (* the word an operation prints for itself *)
 Definition op_word (o : op) : tok :=
   match o with
-  | OCArrive _ => W "a" | OCClose => W "cc" | OSClose => W "sc" | OExpire => W "sx" | OForget => W "sf" | _ => W "-"
+  | OCArrive _ => W "a" | OCClose => W "cc" | OSClose => W "sc" | OExpire => W "sx" | OForget => W "sf"
+  | OSQueue _ => W "sz" | OCAck => W "ck" | _ => W "-"
   end.
 
 Definition obs_toks (o : op) (x : obs) : list tok :=
@@ -452,6 +628,8 @@ Definition obs_toks (o : op) (x : obs) : list tok :=
   | OWoke _ r => W "woke" :: rout_toks r
   | OAns e => [ev_word e]
   | OWrite r => [W (if r then "refused" else "open")]
+  | OWOut _ r => wout_toks r
+  | OWWoke _ r => W "wwoke" :: wout_toks r
   | ODone => [op_word o]
   end.
 
@@ -473,7 +651,11 @@ Fixpoint parse_q (fuel : nat) (ts : list tok) : option (list op) :=
       else if is_word "sx" t then one OExpire r
       else if is_word "sf" t then one OForget r
       else if is_word "cw" t then one OCWrite r
-      else if is_word "sw" t then one OSWrite r
+      else if is_word "sw" t then match r with TB d :: r' => one (OSWrite d) r' | _ => None end
+      else if is_word "sz" t then match r with TB d :: r' => one (OSQueue d) r' | _ => None end
+      else if is_word "sk" t then one OSAck r
+      else if is_word "cv" t then match r with TB d :: TI b :: r' => one (OCOutWrite d (negb (Z.eqb b 0))) r' | _ => None end
+      else if is_word "ck" t then one OCAck r
       else None
     end
   end.
